@@ -66,6 +66,8 @@ type Pre struct {
 	M     *ea.Model
 	Chain []string // head first, as Replica.Chain()
 	Rev   int64
+	// MakeClone pre-states: the revision count the source recorded for the cloned snapshot
+	CloneRev int64
 }
 
 // applyModel applies a history event to the model only; ok=false when the event is not enabled in that state.
@@ -112,6 +114,21 @@ func applyModel(m *ea.Model, ev string) bool {
 		m.Checkpoint = m.Chain[i].Name
 	case "Rebuild":
 		m.Rebuilding = f[1] == "t"
+	case "MakeClone":
+		// the directory becomes that of a CLONE replica in the middle of its clone: a fresh replica marked rebuilding
+		// into which the source's snapshot files base … member i have been copied (they are outside its chain until
+		// UpdateCloneInfo rewires the head)
+		i := atoi(f[1])
+		if i < 0 || i >= len(m.Chain) || m.CloneOf != "" {
+			return false
+		}
+		src := m.Clone()
+		*m = *ea.NewModel(len(src.Chain[i].Img))
+		m.Open, m.Mode = true, "RW"
+		m.Rebuilding = true
+		m.NSnap, m.NW = src.NSnap, src.NW
+		m.Orphans = src.Chain[:i+1]
+		m.CloneOf = src.Chain[i].Name
 	default:
 		return false
 	}
@@ -147,7 +164,15 @@ func BuildPre(dir string, blocks int, history []string, dirty bool) (*Pre, error
 			return err
 		}
 		m.Open, m.Mode = true, "RW"
-		for _, ev := range history {
+		for k, ev := range history {
+			if strings.HasPrefix(ev, "MakeClone:") {
+				if k != len(history)-1 || dirty {
+					return fmt.Errorf("MakeClone must be the last event of a clean history")
+				}
+				var err error
+				p, err = makeClone(srv, work, m, atoi(strings.Split(ev, ":")[1]))
+				return err
+			}
 			if err := applyReal(srv, work, m, ev); err != nil {
 				return fmt.Errorf("history event %s: %v", ev, err)
 			}
@@ -171,6 +196,76 @@ func BuildPre(dir string, blocks int, history []string, dirty bool) (*Pre, error
 		return nil, err
 	}
 	return p, nil
+}
+
+// makeClone turns dir (the source replica built so far, open on srv) into the directory of a clone replica in the
+// middle of its clone: what sync.Task.CloneReplica has done just before it calls UpdateCloneInfo - the clone was
+// created, opened and marked rebuilding, and the source's snapshot files base … member i (.img and .meta) have been
+// transferred into its directory.
+func makeClone(srv *replica.Server, dir string, m *ea.Model, i int) (*Pre, error) {
+	if i < 0 || i >= len(m.Chain) {
+		return nil, fmt.Errorf("MakeClone: no chain member %d", i)
+	}
+	name := ea.Disk(m.Chain[i].Name)
+	rev := srv.Replica().ListDisks()[name].RevisionCounter
+	size := srv.Replica().Info().Size
+	var files []string
+	for _, s := range m.Chain[:i+1] {
+		files = append(files, ea.Disk(s.Name), ea.Disk(s.Name)+".meta")
+	}
+	if err := srv.Close(); err != nil {
+		return nil, err
+	}
+	src := dir + ".src"
+	os.RemoveAll(src)
+	if err := os.Rename(dir, src); err != nil {
+		return nil, err
+	}
+	defer os.RemoveAll(src)
+	if err := os.MkdirAll(dir, 0755); err != nil {
+		return nil, err
+	}
+	c := replica.NewServer(addr, dir, 512, "")
+	if err := c.Create(size); err != nil {
+		return nil, fmt.Errorf("clone create: %v", err)
+	}
+	if err := c.Open(); err != nil {
+		return nil, fmt.Errorf("clone open: %v", err)
+	}
+	if err := c.SetRebuilding(true); err != nil {
+		return nil, fmt.Errorf("clone setrebuilding: %v", err)
+	}
+	stage := dir + ".stage"
+	os.RemoveAll(stage)
+	if err := os.MkdirAll(stage, 0755); err != nil {
+		return nil, err
+	}
+	defer os.RemoveAll(stage)
+	for _, f := range files {
+		if err := os.Link(filepath.Join(src, f), filepath.Join(stage, f)); err != nil {
+			return nil, err
+		}
+	}
+	// hole-preserving copy of the staged files into a scratch directory, then into the clone's directory
+	cp := dir + ".cp"
+	if err := copyDir(stage, cp); err != nil {
+		return nil, err
+	}
+	defer os.RemoveAll(cp)
+	for _, f := range files {
+		if err := os.Rename(filepath.Join(cp, f), filepath.Join(dir, f)); err != nil {
+			return nil, err
+		}
+	}
+	ch, err := c.Replica().Chain()
+	if err != nil {
+		return nil, err
+	}
+	if !applyModel(m, fmt.Sprintf("MakeClone:%d", i)) {
+		return nil, fmt.Errorf("model refuses MakeClone")
+	}
+	p := &Pre{M: m, Chain: ch, Rev: c.Replica().GetRevisionCounter(), CloneRev: rev}
+	return p, c.Close()
 }
 
 // applyReal applies one history event to the real server and the model.
